@@ -41,6 +41,12 @@ def gen(rng, tier):
             for fmt in ("json", "bincode"):
                 p = rbytes(rng, k)
                 cs.append(Case("serde_bytes %s %s %s" % (cont, fmt, hx(p)), cls="bytes/%s/%s" % (cont, fmt), expect="ok " + hx(p)))
+    # every container serialises a byte string the same way (arrays of numbers in JSON, length-prefixed bytes in bincode)
+    for cont in ("vec", "stack", "heaparr", "heap", "locked", "lockedro", "lockedarr"):
+        for k in (0, 1, 16, 31, 32, 33, 64, 100):
+            for fmt in ("json", "bincode"):
+                p = rbytes(rng, k)
+                cs.append(Case("serde_ser %s %s %s" % (cont, fmt, hx(p)), cls="ser/%s/%s" % (cont, fmt), meta={"no_sodium": False}))
     # whole objects, payload lengths 0..=L, JSON and bincode
     L = 40 if tier == "quick" else 300
     for n in range(0, L + 1):
